@@ -20,7 +20,10 @@ ENCS = ("rle", "dict", "sparse", "const", "func")
 FUNCS = ("double", "upper", "not", "id")  # dtype-preserving: also run on the Lean model
 # dtype-changing functions on the stored values (int -> float, narrower -> wider text, int -> text,
 # bool -> int): the expansion must follow the dtype of the *mapped* values.  Oracle only.
-DTYPE_FUNCS = ("halve", "suffix", "tostr", "toint")
+DTYPE_FUNCS = ("halve", "suffix", "tostr", "toint", "invert")
+# (`invert` keeps the dtype but is type-sensitive: `~` is logical negation on booleans and bitwise
+# complement on integers, `tostr` spells True / 1 / 1.0 differently: a stored form that holds the
+# values in another type than the input -- even a wider one that compares equal -- maps differently.)
 MODEL_MAX_LEN = 1500  # the list model is quadratic in places; longer inputs are oracle-only
 
 
@@ -89,6 +92,21 @@ def kind_of(a):
     return a.dtype.kind
 
 
+NUM_NAMES = ("bool", "int8", "int16", "int32", "int64", "uint8", "uint16", "uint32", "uint64", "float16", "float32", "float64",
+             "complex64", "complex128")
+
+
+def dtname(dt):
+    """numpy dtype -> the name the Lean side knows (`Enc.NpDType.ofName`), or None outside the modelled dtypes."""
+    if dt.kind == "U":
+        return "U%d" % (dt.itemsize // 4)
+    if dt.kind == "O":
+        return "object"
+    if dt.kind in "biufc" and dt.name in NUM_NAMES:
+        return dt.name
+    return None
+
+
 def py_f(f, x):
     """Python mirror of the element-wise functions (nulls are fixed)."""
     if x is None:
@@ -107,6 +125,8 @@ def py_f(f, x):
         return str(x)
     if f == "toint":
         return int(x)
+    if f == "invert":
+        return (not x) if isinstance(x, bool) else ~x
     return x
 
 
@@ -120,7 +140,20 @@ def np_f(f, arr):
             out[i] = py_f(f, x)
         return out
     if len(arr) == 0:
-        return arr.copy()  # numpy.array([]) is float64 whatever the kind of the (absent) elements
+        # numpy.array([]) is float64 whatever the kind of the (absent) elements: the function may not
+        # be defined on that dtype; there is nothing to map then
+        try:
+            with warnings.catch_warnings():
+                warnings.simplefilter("ignore")
+                return _np_f(f, arr)
+        except Exception:
+            return arr.copy()
+    return _np_f(f, arr)
+
+
+def _np_f(f, arr):
+    import numpy
+
     if f == "double":
         return arr * 2
     if f == "upper":
@@ -135,6 +168,8 @@ def np_f(f, arr):
         return arr.astype(str)
     if f == "toint":
         return arr.astype(numpy.int64)
+    if f == "invert":
+        return numpy.invert(arr)
     return arr.copy()
 
 
@@ -153,9 +188,11 @@ def f_applicable(f, values):
     if f == "suffix":
         return ks <= {str}
     if f == "tostr":
-        return ks <= {int}
+        return ks <= {int} or ks <= {bool} or ks <= {float}
     if f == "toint":
         return ks <= {bool}
+    if f == "invert":
+        return ks <= {bool} or ks <= {int}
     return False
 
 
@@ -177,8 +214,117 @@ def values_of(case):
     return case["values"]
 
 
+# how the input sequence is handed to the column class: the classes accept any sequence
+NARROW = {  # dtype -> predicate "this Python value is held exactly"
+    "int8": lambda v: type(v) is int and -2**7 <= v < 2**7,
+    "int16": lambda v: type(v) is int and -2**15 <= v < 2**15,
+    "int32": lambda v: type(v) is int and -2**31 <= v < 2**31,
+    "uint8": lambda v: type(v) is int and 0 <= v < 2**8,
+    "uint16": lambda v: type(v) is int and 0 <= v < 2**16,
+    "uint32": lambda v: type(v) is int and 0 <= v < 2**32,
+    "uint64": lambda v: type(v) is int and 0 <= v < 2**53,  # beyond: numpy promotes uint64 with int64 to float64 (the class of C09-K01)
+    "float16": lambda v: type(v) is float and _holds_float(v, "float16"),
+    "float32": lambda v: type(v) is float and _holds_float(v, "float32"),
+    "object": lambda v: True,
+}
+CONTAINERS = ("list", "tuple", "array") + tuple("array:" + k for k in NARROW) + ("array:U12",)
+DEFAULT_NP = ("int8", "int16", "int32", "int64", "uint8", "uint16", "float16", "float32", "float64", "bool")
+TYPES = {"INTEGER": int, "DOUBLE": float, "VARCHAR": str, "BOOLEAN": bool}
+
+
+def _holds_float(v, dt):
+    import numpy
+
+    if v != v or v in (float("inf"), float("-inf")):
+        return True
+    with warnings.catch_warnings():
+        warnings.simplefilter("ignore")
+        return float(numpy.dtype(dt).type(v)) == v
+
+
+def container_ok(cont, values):
+    if cont in ("list", "tuple", "array"):
+        return True
+    if cont == "array:U12":
+        return all(isinstance(v, str) and len(v) <= 12 for v in values)
+    if cont.startswith("array:") and cont[6:] in NARROW:
+        return all(NARROW[cont[6:]](v) for v in values)
+    return False
+
+
+def default_np_ok(dt, d):
+    import numpy
+
+    if dt not in DEFAULT_NP or d is None or isinstance(d, str):
+        return False
+    if dt == "bool":
+        return isinstance(d, bool)
+    if isinstance(d, bool):
+        return False
+    if dt.startswith(("int", "uint")):
+        return type(d) is int and numpy.iinfo(dt).min <= d <= numpy.iinfo(dt).max
+    return type(d) is float and _holds_float(d, dt)
+
+
+def ops_of(case):
+    """The sequence of uses of the one column object (the plain case: expand once)."""
+    if "ops" in case:
+        return list(case["ops"])
+    if case.get("f"):
+        return ["map:" + case["f"], "mat"]
+    return ["mat"]
+
+
+def narrow_funcs(cont):
+    """Functions whose numpy result on a narrow array is the Python result (no wrap-around)."""
+    dt = cont[6:]
+    if dt == "object" or not cont.startswith("array:"):
+        return FUNCS + DTYPE_FUNCS
+    if dt.startswith(("int", "uint")):
+        return ("id", "halve", "tostr")
+    if dt == "U12":
+        return ("id", "upper", "suffix")
+    return ("id",)
+
+
+def ops_valid(case, xs):
+    """Every op is known and applicable to the values as they are at that point."""
+    ops = case["ops"]
+    if not isinstance(ops, list) or not ops or len(ops) > 8 or ops[-1] != "mat" or "f" in case:
+        return False
+    enc = case["enc"]
+    cur = [case["value"]] if enc in ("const", "func") else list(xs)  # (applicability depends on the kinds only)
+    allowed = narrow_funcs(case.get("container", "list"))
+    for op in ops:
+        if not isinstance(op, str):
+            return False
+        if op in ("mat", "decoy", "flat"):
+            continue
+        if op.startswith("len:"):
+            if enc not in ("const", "func") or not op[4:].isdigit() or int(op[4:]) > 200000:
+                return False
+            continue
+        if op == "imap:double":
+            if enc == "func" or case.get("container", "list").startswith("array:") or not f_applicable("double", cur) \
+                    or any(v is None for v in cur):
+                return False
+            cur = [py_f("double", x) for x in cur]
+            continue
+        if op.startswith("map:"):
+            f = op[4:]
+            if enc == "func" or f not in FUNCS + DTYPE_FUNCS or f not in allowed or not f_applicable(f, cur):
+                return False
+            cur = [py_f(f, x) for x in cur]
+            allowed = FUNCS + DTYPE_FUNCS  # the mapped array has the dtype numpy gave the result
+            continue
+        return False
+    return True
+
+
 def has_model(case):
-    if case.get("f") in DTYPE_FUNCS:
+    if case.get("f") in DTYPE_FUNCS or "ops" in case or "default_np" in case:
+        return False
+    if case.get("container", "list") not in ("list", "tuple", "array"):
         return False
     return case["enc"] in ("const", "func") or len(values_of(case)) <= MODEL_MAX_LEN
 
@@ -199,50 +345,132 @@ def fresh(v):
 # --------------------------------------------------------------------------- implementation
 
 
+def build_input(case):
+    """The input sequence in the container the case names (fresh objects: identity must not stand
+    in for equality)."""
+    import numpy
+
+    vs = [fresh(v) for v in values_of(case)]
+    cont = case.get("container", "list")
+    if cont == "list":
+        return vs
+    if cont == "tuple":
+        return tuple(vs)
+    if cont == "array":
+        return numpy.array(vs)
+    return numpy.array(vs, dtype=cont[6:])
+
+
+def build_column(schema, case, calls=None):
+    import numpy
+    from orso.types import OrsoTypes
+
+    enc = case["enc"]
+    kw = {"name": "c"}
+    if "type" in case:
+        kw["type"] = getattr(OrsoTypes, case["type"])
+    if enc == "rle":
+        return schema.RLEColumn(values=build_input(case), **kw)
+    if enc == "dict":
+        return schema.DictionaryColumn(values=build_input(case), **kw)
+    if enc == "sparse":
+        if not case.get("omit_default"):
+            d = fresh(case["default"])
+            if "default_np" in case:
+                d = numpy.dtype(case["default_np"]).type(d)
+            kw["default_value"] = d
+        return schema.SparseColumn(values=build_input(case), **kw)
+    if enc == "const":
+        return schema.ConstantColumn(value=case["value"], length=case["length"], **kw)
+    if enc == "func":
+        v, cfg = case["value"], case.get("cfg")
+
+        def binding(*args):
+            if calls is not None:
+                calls.append(args)
+            if cfg is not None and list(args) != list(cfg):
+                return "<binding called with other arguments than the configuration>"
+            return v
+
+        if cfg is not None:
+            kw["configuration"] = tuple(cfg)
+        return schema.FunctionColumn(binding=binding, length=case["length"], **kw)
+    raise InfraError("bad encoding %r" % (enc,))
+
+
+def build_decoy(schema, case):
+    """Another column of the same class with other data, built and expanded while the column under
+    test is alive (state shared between objects must not leak)."""
+    enc = case["enc"]
+    if enc in ("const", "func"):
+        v = case["value"]
+        other = "decoy" if not isinstance(v, str) else 77
+        c2 = dict(case, value=other, length=case["length"] + 3)
+        c2.pop("cfg", None)
+    else:
+        xs = list(values_of(case))
+        c2 = {"enc": enc, "values": list(reversed(xs)) + xs[:1] + xs}
+        if enc == "sparse":
+            c2["default"] = xs[-1] if xs else 0
+    build_column(schema, c2).materialize()
+
+
 def run_impl(case):
-    """Encode (optionally map the stored values) and expand on the real classes."""
+    """Encode on the real class, then the case's sequence of uses of that one object (expand; map
+    the stored values; expand again; ...)."""
     import numpy
     from orso import schema
 
-    enc, f = case["enc"], case.get("f")
+    enc = case["enc"]
     out = {}
+    at = "construct"
     try:
         with warnings.catch_warnings():
             warnings.simplefilter("ignore")
+            calls = []
+            col = build_column(schema, case, calls)
             if enc == "rle":
-                col = schema.RLEColumn(name="c", values=[fresh(v) for v in values_of(case)])
                 out["values"], out["vkind"] = canon(col.values), kind_of(col.values)
                 out["lengths"] = [int(x) for x in col.lengths]
+                out["lengths_exact"] = all(type(x) is int or isinstance(x, numpy.integer) for x in col.lengths)
             elif enc == "dict":
-                col = schema.DictionaryColumn(name="c", values=[fresh(v) for v in values_of(case)])
                 out["values"], out["vkind"] = canon(col.values), kind_of(col.values)
                 out["codes"] = [int(x) for x in col.encoding]
             elif enc == "sparse":
-                col = schema.SparseColumn(name="c", values=[fresh(v) for v in values_of(case)], default_value=fresh(case["default"]))
                 out["values"], out["vkind"] = canon(col.values), kind_of(col.values)
                 out["indices"] = [int(x) for x in col.indices]
                 out["total"] = int(col.total_length)
             elif enc == "const":
-                col = schema.ConstantColumn(name="c", value=case["value"], length=case["length"])
                 out["values"], out["vkind"] = canon(col.values), kind_of(col.values)
-            elif enc == "func":
-                v = case["value"]
-                calls = []
-
-                def binding(*cfg):
-                    calls.append(cfg)
-                    return v
-
-                col = schema.FunctionColumn(name="c", binding=binding, length=case["length"])
-            else:
-                raise InfraError("bad encoding %r" % (enc,))
-            if f is not None and enc != "func":
-                col.values = np_f(f, col.values)
-                out["mapped"] = canon(col.values)
-            m = col.materialize()
-            if not isinstance(m, numpy.ndarray):
-                m = numpy.asarray(m)
-            out["mat"], out["mkind"] = canon(m), kind_of(m)
+            mats = []
+            for k, op in enumerate(ops_of(case)):
+                at = "%d:%s" % (k, op)
+                if op == "mat":
+                    m = col.materialize()
+                    if not isinstance(m, numpy.ndarray):
+                        m = numpy.asarray(m)
+                    mats.append({"mat": canon(m), "mkind": kind_of(m)})
+                    if enc != "func":
+                        vdt = numpy.asarray(col.values).dtype
+                        ddt = numpy.asarray(col.default_value).dtype if enc == "sparse" else None
+                        mats[-1]["dtypes"] = [dtname(vdt), dtname(ddt) if ddt is not None else None, dtname(m.dtype), len(m)]
+                elif op.startswith("map:"):
+                    col.values = np_f(op[4:], col.values)
+                    out["mapped"] = canon(col.values)
+                elif op == "imap:double":
+                    if len(col.values) or col.values.dtype.kind in "iuf":  # (an empty stored array may be of any dtype)
+                        col.values *= 2
+                    out["mapped"] = canon(col.values)
+                elif op == "decoy":
+                    build_decoy(schema, case)
+                elif op == "flat":
+                    col.to_flatcolumn()
+                elif op.startswith("len:"):
+                    col.length = int(op[4:])
+                else:
+                    raise InfraError("bad op %r" % (op,))
+            out["mats"] = mats
+            out["mat"], out["mkind"] = mats[-1]["mat"], mats[-1]["mkind"]
             if enc == "func":
                 out["calls"] = len(calls)
                 # an impure binding (a counter): "its value repeated" means one value, however
@@ -253,12 +481,13 @@ def run_impl(case):
                     ticks.append(len(ticks))
                     return ticks[-1]
 
-                col2 = schema.FunctionColumn(name="c", binding=counter, length=case["length"])
+                n_last = [int(o[4:]) for o in ops_of(case) if o.startswith("len:")]
+                col2 = schema.FunctionColumn(name="c", binding=counter, length=n_last[-1] if n_last else case["length"])
                 out["counter_mat"] = canon(col2.materialize())
     except InfraError:
         raise
     except Exception as e:
-        return {"raised": type(e).__name__, "msg": str(e)[:120]}
+        return {"raised": type(e).__name__, "msg": str(e)[:120], "at": at}
     return out
 
 
@@ -352,79 +581,126 @@ def seq_reproduces(xs, ys, default=None):
     return None
 
 
+def at_default(x, dv):
+    return family(x) == family(dv) and not is_nan(x) and x == dv
+
+
+def expected_trace(case):
+    """[(clause prefix, expected expansion or None)] for every `mat` of the case's ops.  None: the
+    statement demands nothing there (sparse column, an element is represented by the default and a
+    function that does not fix the default has been applied -- the stored form does not contain it)."""
+    enc = case["enc"]
+    cur = original(case)
+    dv = case.get("default") if enc == "sparse" else None
+    some_at_default = enc == "sparse" and any(at_default(x, dv) for x in cur)
+    mapped, n_mat, skip = False, 0, False
+    res = []
+    for op in ops_of(case):
+        if op == "mat":
+            prefix = "map then expand: " if mapped else "round trip: " if n_mat == 0 else "expanded again: "
+            res.append((prefix, None if skip else list(cur)))
+            n_mat += 1
+        elif op.startswith("map:") or op == "imap:double":
+            f = "double" if op == "imap:double" else op[4:]
+            if some_at_default:
+                fd = py_f(f, dv) if f_applicable(f, [dv]) else object()
+                if not py_eq(fd, dv):
+                    skip = True
+            cur = [py_f(f, x) for x in cur]
+            mapped = True
+        elif op.startswith("len:"):
+            v = cur[0] if cur else None
+            if not cur:  # the value as mapped so far
+                v = case["value"]
+                for o in ops_of(case)[: ops_of(case).index(op)]:
+                    if o.startswith("map:") or o == "imap:double":
+                        v = py_f("double" if o == "imap:double" else o[4:], v)
+            cur = [v] * int(op[4:])
+    return res
+
+
+def stored_form(case, out):
+    """The compression clauses on the stored form as it was right after construction."""
+    enc = case["enc"]
+    xs = original(case)
+    if enc == "rle" and "lengths" in out:
+        vs, ls = out["values"], out["lengths"]
+        if len(vs) != len(ls):
+            return "stored form: run values and run lengths differ in number :: %d values, %d lengths" % (len(vs), len(ls))
+        if any(l < 1 for l in ls) or out.get("lengths_exact") is False:
+            return "stored form: a run length is not positive"
+        if sum(ls) != len(xs):
+            return "stored form: run lengths do not sum to the input length :: sum %d, input %d" % (sum(ls), len(xs))
+        for i in range(len(vs) - 1):
+            if vs[i] == vs[i + 1]:
+                return "stored form: adjacent runs hold the same value"
+    elif enc == "dict" and "codes" in out:
+        vs, cs = out["values"], out["codes"]
+        seen = set()
+        for v in vs:
+            if is_nan(v):
+                # a NaN is unequal to every entry, itself included: numpy.unique merges the NaNs of a
+                # float array and keeps those of an object array apart; both are "unique" under ==
+                # (the model merges them: a float array that keeps them apart is a correspondence matter)
+                continue
+            k = (family(v), v)  # hash-equal exactly when py_eq
+            if k in seen:
+                return "stored form: dictionary entries are not unique"
+            seen.add(k)
+        if len(cs) != len(xs):
+            return "stored form: number of codes differs from the input length :: %d codes, %d elements" % (len(cs), len(xs))
+        for i, c in enumerate(cs):
+            # codes are positions 0..len(values)-1; a negative code would index from the end
+            if not (isinstance(c, int) and 0 <= c <= len(vs) - 1):
+                return "stored form: a code does not index the dictionary :: code %r at element %d, %d entries" % (c, i, len(vs))
+            if not reproduces(xs[i], vs[c]):
+                return "stored form: a code indexes another entry than its element"
+    elif enc == "sparse" and "indices" in out:
+        vs, ix, dv = out["values"], out["indices"], case["default"]
+        if len(vs) != len(ix):
+            return "stored form: sparse indices and values differ in number :: %d indices, %d values" % (len(ix), len(vs))
+        for v in vs:
+            if at_default(v, dv):
+                return "stored form: sparse storage holds the default value"
+        if any(not (0 <= i < len(xs)) for i in ix) or any(a >= b for a, b in zip(ix, ix[1:])):
+            return "stored form: sparse indices are not increasing positions of the input"
+        if out["total"] != len(xs):
+            return "stored form: total length is not the input's length"
+    elif enc == "const" and "values" in out:
+        if len(out["values"]) != 1 or not reproduces(case["value"], out["values"][0]):
+            return "stored form: constant column does not store its value once"
+    return None
+
+
 def oracle(case, out):
     """The property evaluated on the implementation's outputs. Returns a clause or None."""
-    enc, f = case["enc"], case.get("f")
+    enc = case["enc"]
     xs = original(case)
     if "raised" in out:
         if enc == "dict" and any(v is None for v in xs):
             return None  # the dictionary encoding does not support nulls: outside the quantifier
         return "%s column raised %s" % (enc, out["raised"])
-    if f is None:
-        d = [case["default"]] if enc == "sparse" else None
-        r = seq_reproduces(xs, out["mat"], d)
-        if r:
-            return "round trip: " + r
-        if enc == "rle":
-            vs, ls = out["values"], out["lengths"]
-            if len(vs) != len(ls):
-                return "stored form: run values and run lengths differ in number :: %d values, %d lengths" % (len(vs), len(ls))
-            if any(l < 1 for l in ls):
-                return "stored form: a run length is not positive"
-            if sum(ls) != len(xs):
-                return "stored form: run lengths do not sum to the input length :: sum %d, input %d" % (sum(ls), len(xs))
-            for i in range(len(vs) - 1):
-                if vs[i] == vs[i + 1]:
-                    return "stored form: adjacent runs hold the same value"
-        elif enc == "dict":
-            vs, cs = out["values"], out["codes"]
-            seen = set()
-            for v in vs:
-                k = "nan" if is_nan(v) else (family(v), v)  # hash-equal exactly when py_eq
-                if k in seen:
-                    return "stored form: dictionary entries are not unique"
-                seen.add(k)
-            if len(cs) != len(xs):
-                return "stored form: number of codes differs from the input length :: %d codes, %d elements" % (len(cs), len(xs))
-            for i, c in enumerate(cs):
-                # codes are positions 0..len(values)-1; a negative code would index from the end
-                if not (isinstance(c, int) and 0 <= c <= len(vs) - 1):
-                    return "stored form: a code does not index the dictionary :: code %r at element %d, %d entries" % (c, i, len(vs))
-                if not reproduces(xs[i], vs[c]):
-                    return "stored form: a code indexes another entry than its element"
-        elif enc == "sparse":
-            vs, ix, dv = out["values"], out["indices"], case["default"]
-            if len(vs) != len(ix):
-                return "stored form: sparse indices and values differ in number :: %d indices, %d values" % (len(ix), len(vs))
-            for v in vs:
-                if not is_nan(v) and family(v) == family(dv) and v == dv:
-                    return "stored form: sparse storage holds the default value"
-            if any(not (0 <= i < len(xs)) for i in ix) or any(a >= b for a, b in zip(ix, ix[1:])):
-                return "stored form: sparse indices are not increasing positions of the input"
-            if out["total"] != len(xs):
-                return "stored form: total length is not the input's length"
-        elif enc == "const":
-            if len(out["values"]) != 1 or not reproduces(case["value"], out["values"][0]):
-                return "stored form: constant column does not store its value once"
-        elif enc == "func":
-            cm = out.get("counter_mat")
-            if cm is not None and (len(cm) != case["length"] or any(x != cm[0] for x in cm)):
-                return "function column does not repeat one value of its binding :: a counting binding expands to %r" % (cm[:6],)
-        return None
-    # an element-wise function on the stored values, then expansion
-    if enc == "sparse":
-        dv = case["default"]
-        at_default = [x for x in xs if family(x) == family(dv) and not is_nan(x) and x == dv]
-        if at_default:
-            # some element is represented by the default: the statement is only meaningful for
-            # functions that fix the default (the stored form does not contain it)
-            fd = py_f(f, dv) if f_applicable(f, [dv]) else object()
-            if not py_eq(fd, dv):
-                return None
-    want = [py_f(f, x) for x in xs]
-    r = seq_reproduces(want, out["mat"], [case["default"]] if enc == "sparse" else None)
-    if r:
-        return "map then expand: " + r
+    trace = expected_trace(case)
+    mats = out["mats"] if "mats" in out else [{"mat": out["mat"]}]
+    if len(mats) != len(trace):
+        raise InfraError("%d expansions recorded for %d `mat` ops in %r" % (len(mats), len(trace), case))
+    d = [case["default"]] if enc == "sparse" else None
+    for k, ((prefix, want), got) in enumerate(zip(trace, mats)):
+        if want is not None:
+            r = seq_reproduces(want, got["mat"], d)
+            if r:
+                return prefix + r
+        if k == 0:
+            # (after the first expansion, so that the most direct clause is the one reported)
+            r = stored_form(case, out)
+            if r:
+                return r
+            if enc == "func":
+                cm = out.get("counter_mat")
+                n_last = [int(o[4:]) for o in ops_of(case) if o.startswith("len:")]
+                n = n_last[-1] if n_last else case["length"]
+                if cm is not None and (len(cm) != n or any(x != cm[0] for x in cm)):
+                    return "function column does not repeat one value of its binding :: a counting binding expands to %r" % (cm[:6],)
     return None
 
 
@@ -450,8 +726,18 @@ def homogeneous(values):
     return len(ks) <= 1
 
 
+KEYS = {"enc", "values", "spec", "default", "value", "length", "f", "ops", "container", "default_np", "omit_default", "type", "cfg"}
+
+
+def type_ok(c, vs):
+    t = c.get("type")
+    if t is None:
+        return True
+    return t in TYPES and all(v is None or type(v) is TYPES[t] for v in vs)
+
+
 def valid_case(c):
-    if not isinstance(c, dict) or c.get("enc") not in ENCS:
+    if not isinstance(c, dict) or c.get("enc") not in ENCS or not set(c) <= KEYS:
         return False
     f = c.get("f")
     if f is not None and (f not in FUNCS + DTYPE_FUNCS or c["enc"] == "func"):
@@ -459,9 +745,18 @@ def valid_case(c):
     if c["enc"] in ("const", "func"):
         if not (isinstance(c.get("length"), int) and not isinstance(c.get("length"), bool) and 0 <= c["length"] <= 200000):
             return False
-        if "value" not in c or not scalar_ok(c["value"]):
+        if "value" not in c or not scalar_ok(c["value"]) or set(c) & {"values", "spec", "default", "container", "default_np", "omit_default"}:
+            return False
+        if "cfg" in c and (c["enc"] != "func" or not isinstance(c["cfg"], list) or len(c["cfg"]) > 4
+                           or not all(type(a) in (int, str) for a in c["cfg"])):
+            return False
+        if not type_ok(c, [c["value"]]):
+            return False
+        if "ops" in c and not ops_valid(c, [c["value"]] * c["length"]):
             return False
         return f is None or f_applicable(f, [c["value"]])
+    if set(c) & {"value", "length", "cfg"}:
+        return False
     if "spec" in c:
         sp = c["spec"]
         if "values" in c or not isinstance(sp, dict) or sp.get("shape") not in ("distinct", "run") \
@@ -473,36 +768,116 @@ def valid_case(c):
         vs = c.get("values")
     if not isinstance(vs, list) or not all(scalar_ok(v) for v in vs) or not homogeneous(vs):
         return False
-    if c["enc"] == "sparse" and ("default" not in c or not scalar_ok(c["default"])):
+    cont = c.get("container", "list")
+    if cont not in CONTAINERS or not container_ok(cont, vs):
         return False
-    return f is None or f_applicable(f, vs)
+    if c["enc"] == "sparse":
+        if "default" not in c or not scalar_ok(c["default"]):
+            return False
+        if "default_np" in c and not default_np_ok(c["default_np"], c["default"]):
+            return False
+        if "omit_default" in c and (c["omit_default"] is not True or c["default"] is not None or "default_np" in c):
+            return False
+    elif set(c) & {"default", "default_np", "omit_default"}:
+        return False
+    if not type_ok(c, vs):
+        return False
+    if "ops" in c:
+        return ops_valid(c, vs)
+    return f is None or (f in narrow_funcs(cont) and f_applicable(f, vs))
 
 
 # --------------------------------------------------------------------------- evaluation
 
 
-def is_big_int_float_default(case, failure=None):
-    """C09-K01: sparse column of integers beyond 2**53 with a float default (numpy promotes
-    int64 with float64 to float64, which rounds such integers)."""
+def k01_class(case):
+    """Inputs of the class of C09-K01: a sparse column holding integers beyond 2**53 whose default is
+    a float (numpy promotes int64 with float64 to float64, which rounds such integers)."""
     if case.get("enc") != "sparse" or not isinstance(case.get("default"), float):
         return False
     if "spec" in case or not isinstance(case.get("values"), list):
         return False
-    if not any(isinstance(v, int) and not isinstance(v, bool) and abs(v) > 2**53 for v in case["values"]):
-        return False
-    if failure is not None:
-        import re
+    return any(isinstance(v, int) and not isinstance(v, bool) and abs(v) > 2**53 for v in case["values"])
 
-        cl = failure.get("clause") or ""
-        if "an element of the expansion differs" not in cl:
+
+def is_big_int_float_default(case, failure=None):
+    """C09-K01, and only it: the failing element is an integer beyond 2**53 that came back as exactly
+    its float64 rounding -- either stored and rounded by the expansion into float64, or judged equal to
+    the float default after promotion to float64 and therefore not stored at all (it then comes back as
+    the default).  Any other failure on such an input (another element, another value, a stored-form
+    clause, an exception) is reported."""
+    if not k01_class(case):
+        return False
+    if failure is None:
+        return True
+    import ast
+    import re
+
+    if "an element of the expansion differs" not in (failure.get("clause") or ""):
+        return False
+    m = re.match(r"element (\d+) of the expansion is (\S+) \(float\), the input has (.+) \((\w+)\)$", failure.get("detail") or "")
+    if not m:
+        return False
+    try:
+        i, got = int(m.group(1)), ast.literal_eval(m.group(2))
+    except (ValueError, SyntaxError):
+        return False
+    if not isinstance(got, float):
+        return False
+    if m.group(4) == "int":
+        # rounded by the expansion: the expected element (after any map) is an integer beyond 2**53
+        try:
+            want = int(m.group(3))
+        except ValueError:
             return False
-        m = re.match(r"element (\d+) ", failure.get("detail") or "")
-        if not m:
-            return False
-        i = int(m.group(1))  # the failing element must be one of the big integers
-        v = case["values"][i] if i < len(case["values"]) else None
-        return isinstance(v, int) and not isinstance(v, bool) and abs(v) > 2**53
-    return True
+        if abs(want) > 2**53 and got == float(want) and int(got) != want:
+            return True
+    # not stored: the original element is beyond 2**53 and equal to the default once both are float64
+    v = case["values"][i] if i < len(case["values"]) else None
+    return isinstance(v, int) and not isinstance(v, bool) and abs(v) > 2**53 and got == float(v) and int(got) != v \
+        and got == case["default"]
+
+
+_DT_CACHE = {}
+
+
+def model_result_dtype(ctx, v, d):
+    """`Gen.Encodings.sparseResultDType` (the dtype decision extracted from the source, over numpy's own
+    promotion table) evaluated by the Lean driver on two dtype names."""
+    if (v, d) not in _DT_CACHE:
+        text = ctx.model.one("C09 sparse_dtype " + wire.line(v, d))
+        if not text.startswith("ok"):
+            raise InfraError("model rejected dtype names %r, %r: %r" % (v, d, text))
+        _DT_CACHE[(v, d)] = wire.dec_all(text[2:])[0]
+    return _DT_CACHE[(v, d)]
+
+
+def dtype_correspondence(ctx, c, out):
+    """The dtype of every expansion against the model: for a sparse column the extracted decision over
+    the dtypes of the stored values and of the default; for the other encodings the dtype of the stored
+    values (an expansion holds its values in the dtype they are stored in)."""
+    for k, mt in enumerate(out.get("mats", [])):
+        dts = mt.get("dtypes")
+        if not dts:
+            continue
+        v, d, r, n = dts
+        if c["enc"] == "sparse":
+            if v is None or d is None or r is None:
+                ctx.hit("dtype:outside-model")
+                continue
+            want = model_result_dtype(ctx, v, d)
+            ctx.hit("dtype:sparse:%s+%s" % (v.rstrip("0123456789") if v[0] == "U" else v, d.rstrip("0123456789") if d[0] == "U" else d))
+        else:
+            if v is None or r is None or (c["enc"] == "rle" and (n == 0 or (v[0] == "U" and r[0] == "U"))):
+                # RLEColumn.materialize rebuilds the array from a Python list: an empty expansion is float64
+                # whatever was stored, and text gets the width of its widest element (never cut: the
+                # oracle compares the elements)
+                continue
+            want = v
+        if r != want:
+            ctx.disagree(c, {"expansion": k, "values_dtype": v, "default_dtype": d, "result_dtype": r}, {"result_dtype": want},
+                         what="dtype of the expansion")
+            return
 
 
 def evaluate(ctx, cases):
@@ -519,6 +894,17 @@ def evaluate(ctx, cases):
                             else "121-300" if len(xs) <= 300 else "301-30000" if len(xs) <= 30000 else "30001+"))
         if "spec" in c:
             ctx.hit("spec:%s:%s:%d" % (c["spec"]["shape"], c["spec"]["kind"], c["spec"]["n"]))
+        if "ops" in c:
+            names = [o.split(":")[0] for o in c["ops"]]
+            ctx.hit("ops:%d-expansions:%s" % (names.count("mat"), "+".join(sorted(set(names) - {"mat"})) or "only"))
+        if c.get("container", "list") != "list":
+            ctx.hit("container:" + c["container"])
+        for k_ in ("default_np", "type"):
+            if k_ in c:
+                ctx.hit("%s:%s" % (k_, c[k_]))
+        for k_ in ("omit_default", "cfg"):
+            if k_ in c:
+                ctx.hit(k_)
         ks = sorted({type(v).__name__ for v in xs}) or ["empty"]
         ctx.hit("kind:" + "+".join(ks))
         if c["enc"] == "sparse":
@@ -532,7 +918,7 @@ def evaluate(ctx, cases):
         m = model_out(c, mo) if mo is not None else None
         # the model is proved lossless: its own answer must satisfy the same oracle, otherwise the
         # driver glue / wire / this harness is broken (never a VIOLATION)
-        if m is not None and "raised" not in m and not is_big_int_float_default(c):
+        if m is not None and "raised" not in m and not k01_class(c):
             m2 = dict(m)
             if "values" not in m2 and c.get("f") is None and c["enc"] != "func":
                 raise InfraError("model output lacks the stored form for %r" % (c,))
@@ -557,6 +943,8 @@ def evaluate(ctx, cases):
                      detail=full.split(" :: ")[1] if " :: " in full else None)
         elif m is not None and not same_obs(out, m):
             ctx.disagree(c, out, m)
+        elif "raised" not in out:
+            dtype_correspondence(ctx, c, out)
 
 
 # --------------------------------------------------------------------------- generators
@@ -585,31 +973,74 @@ DEFAULTS = {
     "text+null": (None, 0, "", "abc", "a"),
 }
 
-FUNC2_OF = {"int": ("halve", "tostr"), "float": ("halve",), "float2": ("halve",), "text": ("suffix",), "text2": ("suffix",),
-            "bool+null": ("toint",), "int+null": ("halve", "tostr"), "float+null": ("halve",), "text+null": ("suffix",)}
+FUNC2_OF = {"int": ("halve", "tostr", "invert"), "float": ("halve", "tostr"), "float2": ("halve",), "text": ("suffix",),
+            "text2": ("suffix",), "bool+null": ("toint", "invert", "tostr"), "int+null": ("halve", "tostr"),
+            "float+null": ("halve",), "text+null": ("suffix",)}
+
+# a second function applicable to the result of the first (for map -> expand -> map -> expand)
+THEN = {"double": "halve", "halve": "double", "upper": "suffix", "suffix": "upper", "not": "toint", "toint": "double",
+        "tostr": "suffix", "invert": "tostr", "id": "id"}
+# sparse defaults of the sequence scope: null, the natural zero of the kind, another kind
+DEFAULTS_SEQ = {"int": (None, 0, 0.0), "float": (None, 0.0, 0), "float2": (None, 1.0, ""), "text": (None, "", 0),
+                "text2": (None, "a", "abcdef"), "bool+null": (None, False, 0), "int+null": (None, 0, ""),
+                "float+null": (None, 0.0, 0), "text+null": (None, "", "a")}
+
+
+def op_sequences(f, f2, enc):
+    """Uses of one column object: expand twice; expand, map, expand (a cache of the first expansion
+    or of its dtype must not survive the map); map twice; another object / to_flatcolumn in between."""
+    yield ["mat", "mat"]
+    yield ["decoy", "mat", "flat", "mat"]
+    for g in (f,) + tuple(f2):
+        if g is None:
+            continue
+        yield ["mat", "map:" + g, "mat"]
+        yield ["map:" + g, "mat", "mat"]
+        h = THEN.get(g)
+        if h:
+            yield ["map:" + g, "mat", "map:" + h, "mat"]
+    if f == "double":
+        yield ["mat", "imap:double", "mat"]
+    if enc in ("const", "func"):
+        for k in (0, 1, 4):
+            yield ["mat", "len:%d" % k, "mat"]
+            if enc == "const" and f is not None:
+                yield ["map:" + f, "len:%d" % k, "mat"]
 
 FUNC_OF = {"int": "double", "float": "double", "float2": "double", "text": "upper", "text2": "upper",
            "bool+null": "not", "int+null": "double", "float+null": "double", "text+null": "upper"}
 
 
-def exhaustive_cases(nmax, nmax_map):
+def exhaustive_level(n, with_maps):
+    """Every sequence of length exactly `n` over each alphabet through RLE, dictionary and sparse
+    (every listed default) columns, optionally with every applicable element-wise function."""
     for name, alpha in ALPHABETS:
-        for n in range(nmax + 1):
-            for seq in itertools.product(alpha, repeat=n):
-                vs = list(seq)
-                if not homogeneous(vs):
-                    continue
-                yield {"enc": "rle", "values": vs}
-                yield {"enc": "dict", "values": vs}
-                for d in DEFAULTS[name]:
-                    yield {"enc": "sparse", "values": vs, "default": d}
-                for f in ((FUNC_OF[name],) + FUNC2_OF[name]) if n <= nmax_map else ():
-                    if f_applicable(f, vs):
-                        yield {"enc": "rle", "values": vs, "f": f}
-                        if None not in vs or len(vs) < 2:
-                            yield {"enc": "dict", "values": vs, "f": f}
-                        for d in DEFAULTS[name]:
-                            yield {"enc": "sparse", "values": vs, "default": d, "f": f}
+        for seq in itertools.product(alpha, repeat=n):
+            vs = list(seq)
+            if not homogeneous(vs):
+                continue
+            yield {"enc": "rle", "values": vs}
+            yield {"enc": "dict", "values": vs}
+            for d in DEFAULTS[name]:
+                yield {"enc": "sparse", "values": vs, "default": d}
+            for f in ((FUNC_OF[name],) + FUNC2_OF[name]) if with_maps else ():
+                if f_applicable(f, vs):
+                    yield {"enc": "rle", "values": vs, "f": f}
+                    if None not in vs or len(vs) < 2:
+                        yield {"enc": "dict", "values": vs, "f": f}
+                    for d in DEFAULTS[name]:
+                        yield {"enc": "sparse", "values": vs, "default": d, "f": f}
+
+
+def exhaustive_cases(nmax, nmax_map):
+    for n in range(nmax + 1):
+        yield from exhaustive_level(n, n <= nmax_map)
+    yield from scalar_cases()
+
+
+def scalar_cases():
+    """Constant and function columns: every scalar of the list x lengths, functions, sequences of uses,
+    configurations, declared types."""
     scalars = [0, 1, -5, 2**40, 0.0, 1.5, NAN, float("inf"), "", "a", "abcd", "The god of merchants", True, False, None]
     for v in scalars:
         for n in (0, 1, 2, 3, 5, 10):
@@ -618,6 +1049,87 @@ def exhaustive_cases(nmax, nmax_map):
             for f in ("double", "upper", "not") + DTYPE_FUNCS:
                 if v is not None and f_applicable(f, [v]):
                     yield {"enc": "const", "value": v, "length": n, "f": f}
+        for n in (0, 1, 3):
+            fs = [f for f in ("double", "upper", "not") + DTYPE_FUNCS if v is not None and f_applicable(f, [v])]
+            for enc in ("const", "func"):
+                for ops in op_sequences(fs[0] if fs and enc == "const" else None, fs[1:] if enc == "const" else (), enc):
+                    c = {"enc": enc, "value": v, "length": n, "ops": ops}
+                    if valid_case(c):
+                        yield c
+            yield {"enc": "func", "value": v, "length": n, "cfg": [n, "x"]}
+            for t, ty in TYPES.items():
+                if v is not None and type(v) is ty:
+                    yield {"enc": "const", "value": v, "length": n, "type": t}
+                    yield {"enc": "func", "value": v, "length": n, "type": t, "cfg": [7]}
+
+
+def sequence_cases(nmax):
+    """Sequences of uses on one object, other containers, declared types: every sequence of length
+    0..nmax over each alphabet."""
+    for name, alpha in ALPHABETS:
+        type_name = {"int": "INTEGER", "float": "DOUBLE", "float2": "DOUBLE", "text": "VARCHAR", "text2": "VARCHAR",
+                     "bool+null": "BOOLEAN", "int+null": "INTEGER", "float+null": "DOUBLE", "text+null": "VARCHAR"}[name]
+        for n in range(nmax + 1):
+            for seq in itertools.product(alpha, repeat=n):
+                vs = list(seq)
+                if not homogeneous(vs):
+                    continue
+                fs = [f for f in (FUNC_OF[name],) + FUNC2_OF[name] if f_applicable(f, vs)]
+                bases = [{"enc": "rle", "values": vs}]
+                if None not in vs or len(vs) < 2:
+                    bases.append({"enc": "dict", "values": vs})
+                bases += [{"enc": "sparse", "values": vs, "default": d} for d in DEFAULTS_SEQ[name]]
+                for b in bases:
+                    for ops in op_sequences(fs[0] if fs else None, fs[1:], b["enc"]):
+                        c = dict(b, ops=ops)
+                        if valid_case(c):
+                            yield c
+                    for cont in ("tuple", "array"):
+                        yield dict(b, container=cont)
+                    yield dict(b, type=type_name)
+                    if b["enc"] == "sparse" and b["default"] is None:
+                        yield dict(b, omit_default=True)
+
+
+# narrow numpy containers: value pools exactly representable in the dtype
+NARROW_POOLS = {
+    "int8": (0, 1, -128, 127), "int16": (0, 1, -32768, 32767, 300), "int32": (0, 7, -2**31, 2**31 - 1),
+    "uint8": (0, 1, 255, 128), "uint16": (0, 1, 65535, 256), "uint32": (0, 1, 2**32 - 1), "uint64": (0, 1, 2**53 - 1),
+    "float16": (0.0, 1.5, 2048.0, 65504.0, NAN), "float32": (0.0, 1.5, 0.10000000149011612, 16777216.0, NAN),
+    "object": (0, 1, 300), "U12": ("", "a", "abcd"),
+}
+# defaults that a narrow comparison would confuse with a value of the pool (0.1 ~ float32(0.1),
+# 2049 ~ float16(2048), 16777217 ~ float32(16777216)), that lie outside the range of the dtype,
+# or that are of another kind
+NARROW_DEFAULTS = {
+    "int8": (None, 0, 128, 300, -129, 0.0, 0.5, "", True), "int16": (None, 0, 32768, 65836, 0.5, ""),
+    "int32": (None, 0, 2**31, -2**31 - 1, 7.0), "uint8": (None, 0, -1, 256, 384, 0.5), "uint16": (None, 0, -1, 65536),
+    "uint32": (None, 0, -1, 2**32), "uint64": (None, 1), "float16": (None, 0, 2049, 2048, 1.5, 65505, 0.1, ""),
+    "float32": (None, 0, 0.1, 16777217, 16777216, 1.5, ""), "object": (None, 0, 0.0, ""), "U12": (None, "", "abcde", 0),
+}
+
+
+def narrow_cases(nmax):
+    for dt, pool in NARROW_POOLS.items():
+        cont = "array:" + dt
+        for n in range(nmax + 1):
+            for seq in itertools.product(pool, repeat=n):
+                vs = list(seq)
+                yield {"enc": "rle", "values": vs, "container": cont}
+                yield {"enc": "dict", "values": vs, "container": cont}
+                for d in NARROW_DEFAULTS[dt]:
+                    yield {"enc": "sparse", "values": vs, "default": d, "container": cont}
+                for f in narrow_funcs(cont)[:4]:
+                    if f != "id" and f_applicable(f, vs) and f in narrow_funcs(cont):
+                        for enc in ("rle", "dict"):
+                            yield {"enc": enc, "values": vs, "container": cont, "ops": ["mat", "map:" + f, "mat"]}
+    # typed (numpy scalar) defaults against list data
+    for vs in ([1, 0, 2], [1.5, 0.0, 0.10000000149011612], [True, False], [300, 0]):
+        for dnp in DEFAULT_NP:
+            for d in (0, 1, 0.0, 1.5, False, 0.10000000149011612):
+                c = {"enc": "sparse", "values": vs, "default": d, "default_np": dnp}
+                if valid_case(c):
+                    yield c
 
 
 def gen_scalar(rng, kind):
@@ -629,7 +1141,7 @@ def gen_scalar(rng, kind):
             return rng.randint(-1000, 1000)
         if r < 0.95:
             return rng.randint(-(2**40), 2**40)
-        return rng.choice([2**53, -(2**53), 2**31, 2**53 - 1])
+        return rng.choice([2**53, -(2**53), 2**31, 2**53 - 1, 2**63 - 1, -(2**63), 2**53 + 1, 2**32, -(2**31) - 1])
     if kind == "float":
         r = rng.random()
         if r < 0.4:
@@ -679,9 +1191,9 @@ SMALL_BOUNDS = (127, 128, 129, 255, 256, 257)
 LARGE_BOUNDS = (32767, 32768, 32769, 65535, 65536, 65537)
 
 
-def boundary_cases(large=True):
+def boundary_cases(large=True, small=True):
     for kind in ("int", "text"):
-        for n in SMALL_BOUNDS:
+        for n in SMALL_BOUNDS if small else ():
             d = {"shape": "distinct", "kind": kind, "n": n}
             yield {"enc": "dict", "spec": d}
             yield {"enc": "dict", "spec": d, "f": "id"}
@@ -698,9 +1210,29 @@ def boundary_cases(large=True):
                 yield {"enc": "rle", "spec": d}
                 yield {"enc": "rle", "spec": {"shape": "run", "kind": kind, "n": n}}
                 yield {"enc": "sparse", "spec": d, "default": None}
-    for n in SMALL_BOUNDS + ((32767, 32768, 65535, 65536) if large else ()):
+    for n in (SMALL_BOUNDS if small else ()) + ((32767, 32768, 65535, 65536) if large else ()):
         yield {"enc": "const", "value": 7, "length": n}
         yield {"enc": "func", "value": "ab", "length": n}
+        yield {"enc": "const", "value": True, "length": 1, "ops": ["mat", "len:%d" % n, "mat"]}
+    # text at the widths where a one-byte / two-byte length field would end
+    for w in (SMALL_BOUNDS if small else ()) + ((65535, 65536) if large else ()):
+        t = "x" * (w - 1) + "y"
+        yield {"enc": "const", "value": t, "length": 2}
+        yield {"enc": "func", "value": t, "length": 2}
+        yield {"enc": "rle", "values": ["a", t, t, ""]}
+        yield {"enc": "dict", "values": ["a", t, t, ""]}
+        for dv in (None, "", "a", t):
+            yield {"enc": "sparse", "values": ["a", t, t, ""], "default": dv}
+        yield {"enc": "sparse", "values": ["a", "", "b"], "default": t}
+        yield {"enc": "rle", "values": ["a", t], "f": "suffix"}
+    # the ends of int64, and the integers around 2**53 (exact as int64; see C09-K01 for float defaults)
+    for v in (2**63 - 1, -(2**63), 2**53 + 1, -(2**53) - 1, 2**31, 2**32) if small else ():
+        yield {"enc": "const", "value": v, "length": 3}
+        yield {"enc": "func", "value": v, "length": 3}
+        yield {"enc": "rle", "values": [v, v, 0, v]}
+        yield {"enc": "dict", "values": [v, 0, v]}
+        for dv in (None, 0, v, ""):
+            yield {"enc": "sparse", "values": [v, 0, v, 1], "default": dv}
 
 
 def random_case(ctx, big=False):
@@ -749,11 +1281,52 @@ def random_case(ctx, big=False):
         c["default"] = gen_default(rng, kind, vs)
         if big and kind == "int":
             c["default"] = rng.choice([0.0, 1.5, float(2**53)])
-    if rng.random() < 0.35:
+    r = rng.random()
+    if r < 0.35:
         f = rng.choice(RANDOM_FUNCS[kind] + ("id",))
         if f_applicable(f, vs) and not (enc == "dict" and None in vs and len(vs) >= 2):
             c["f"] = f
+    elif r < 0.55 and not big:
+        return random_variant(rng, c, kind)
     return c
+
+
+KIND_TYPE = {"int": "INTEGER", "float": "DOUBLE", "text": "VARCHAR", "bool": "BOOLEAN"}
+
+
+def random_variant(rng, c, kind):
+    """A random sequence of uses of the one object / another container / a declared type."""
+    base = dict(c)
+    r = rng.random()
+    if r < 0.5:
+        ops = []
+        for _ in range(rng.randint(1, 4)):
+            q = rng.random()
+            ops.append("mat" if q < 0.4 else "map:" + rng.choice(RANDOM_FUNCS[kind] + ("id", "invert", "tostr", "toint")) if q < 0.8
+                       else rng.choice(["decoy", "flat", "imap:double"] + (["len:%d" % rng.randint(0, 9)] if c["enc"] in ("const", "func") else [])))
+        c = dict(base, ops=ops + ["mat"])
+        # drop the ops that are not applicable where they stand
+        while not valid_case(c) and len(c["ops"]) > 1:
+            for i in range(len(c["ops"]) - 1):
+                c2 = dict(c, ops=c["ops"][:i] + c["ops"][i + 1:])
+                if valid_case(c2) or len(c2["ops"]) == 1:
+                    c = c2
+                    break
+            else:
+                c = dict(c, ops=["mat", "mat"])
+    elif r < 0.75 and c["enc"] not in ("const", "func"):
+        cands = [k for k in CONTAINERS if k != "list" and container_ok(k, values_of(c))]
+        c = dict(base, container=rng.choice(cands))
+        if c["enc"] == "sparse" and rng.random() < 0.3:
+            for dnp in rng.sample(DEFAULT_NP, len(DEFAULT_NP)):
+                if default_np_ok(dnp, c["default"]):
+                    c["default_np"] = dnp
+                    break
+    else:
+        c = dict(base, type=KIND_TYPE[kind])
+        if c["enc"] == "func":
+            c["cfg"] = [rng.randint(0, 5), "k"][: rng.randint(0, 2)]
+    return c if valid_case(c) else base
 
 
 # --------------------------------------------------------------------------- entry points
@@ -792,26 +1365,56 @@ CORPUS = [
     {"enc": "const", "value": "The god of merchants, shepherds and messengers.", "length": 10},
     {"enc": "const", "value": None, "length": 3},
     {"enc": "func", "value": "abc", "length": 0},
+    # witnesses of C09-F02 (fixed): float32 / float16 data against a Python number that only rounds to a stored value
+    {"enc": "sparse", "values": [0.10000000149011612, 0.5], "default": 0.1, "container": "array:float32"},
+    {"enc": "sparse", "values": [2048.0, 1.0], "default": 2049, "container": "array:float16"},
+    {"enc": "sparse", "values": [16777216.0], "default": 16777217, "container": "array:float32"},
+    # one object used more than once
+    {"enc": "sparse", "values": [1, 0, 3], "default": 0, "ops": ["mat", "map:halve", "mat"]},
+    {"enc": "rle", "values": [1, 1, 2], "ops": ["mat", "map:tostr", "mat", "mat"]},
+    {"enc": "dict", "values": ["b", "a", "b"], "ops": ["map:suffix", "mat", "map:upper", "mat"]},
+    {"enc": "const", "value": True, "length": 2, "f": "invert"},
+    {"enc": "const", "value": 3, "length": 5, "ops": ["imap:double", "mat", "len:0", "mat"]},
+    {"enc": "func", "value": 1.5, "length": 2, "cfg": [1, "a"], "ops": ["mat", "len:0", "mat", "len:3", "mat"]},
 ]
 
 
 def run(ctx):
+    import os
+    import time
+
+    # the budget is for the search: a source change first costs a rebuild of model and proofs
+    # (Generated/Encodings.lean is a translation of the nine methods), which must not eat it
+    ctx.t0 = time.time()
+    if os.environ.get("C09_BUDGET_S"):  # (for testing the behaviour on a slow machine)
+        ctx.budget_s = float(os.environ["C09_BUDGET_S"])
+    cut = []  # enumerations stopped by the wall clock: never an error, recorded in the evidence
+    done_scopes = {}
+
+    def scope(name, gen, reserve=2.0):
+        """Evaluate the enumeration in small batches; when the wall-clock budget runs out stop, record
+        how far it got and go on to the decision (a slow machine is not a fault of anything)."""
+        n = 0
+        for batch in _chunks(gen, 1000):
+            if ctx.time_left() < reserve and not ctx.replaying:
+                cut.append({"scope": name, "cases_evaluated_before_the_cut": n})
+                done_scopes[name] = (n, False)
+                return False
+            for c in batch:
+                if not valid_case(c):
+                    raise InfraError("%s case is not valid: %r" % (name, c))
+            evaluate(ctx, batch)
+            n += len(batch)
+        done_scopes[name] = (n, True)
+        return True
+
     for c in CORPUS:
         if not valid_case(c):
             raise InfraError("corpus case is not valid: %r" % (c,))
     evaluate(ctx, [dict(c) for c in CORPUS])
-    nb = 0
-    for batch in _chunks(boundary_cases(), 20):
-        for c in batch:
-            if not valid_case(c):
-                raise InfraError("boundary case is not valid: %r" % (c,))
-        evaluate(ctx, batch)
-        nb += len(batch)
-    ctx.note("boundary_scope", "%d cases with %s and %s distinct values / run lengths / lengths (ints and text) through dictionary, "
-             "RLE, sparse, constant and function columns" % (nb, list(SMALL_BOUNDS), list(LARGE_BOUNDS)))
     ctx.note("rule", "one case = one sequence (or constant value and length) put through one column encoding, "
-             "optionally with an element-wise function on the stored values; non-trivial = at least two elements; "
-             "distinct by canonical JSON of the case")
+             "optionally with an element-wise function on the stored values or a sequence of uses of the one column object; "
+             "non-trivial = at least two elements; distinct by canonical JSON of the case")
     ctx.note("assumptions", [
         "element kinds: one kind per sequence (integers within int64, floats without -0.0, text, booleans), optionally with nulls; "
         "mixed-kind lists are converted by numpy.array before any encoding sees them and are outside the property's quantifier",
@@ -819,26 +1422,48 @@ def run(ctx):
         "map commutation for sparse columns is required of functions that fix the default (DESIGN.md section 7, readings)",
         "a sparse position whose input equals the default may come back as the default itself (0.0 stored among objects with default 0 -> 0)",
     ])
-    nmax, nmax_map = ctx.scale((5, 4), (6, 5))
-    total = 0
-    for batch in _chunks(exhaustive_cases(nmax, nmax_map), 4000):
-        if ctx.time_left() < 5:
-            if ctx.violations:
-                break  # a failing input is already recorded; shrinking it used the budget
-            raise InfraError("time budget exhausted inside the exhaustive scope")
-        evaluate(ctx, batch)
-        total += len(batch)
+    # The quick tier's core (sized to finish inside the budget on a machine four times slower than an idle
+    # one), then the extensions in order of what they add; the thorough tier runs everything deeper.
+    core_n, nmax, nmax_map = ctx.scale((3, 5, 4), (4, 6, 5))
+    nseq, nnarrow = ctx.scale((2, 2), (4, 3))
+    scope("boundary-small", boundary_cases(large=False))
+    scope("scalars", scalar_cases())
+    for n in range(core_n + 1):
+        scope("exhaustive-length-%d" % n, exhaustive_level(n, n <= nmax_map))
+    scope("sequences-of-uses", sequence_cases(nseq))
+    scope("narrow-containers", narrow_cases(nnarrow))
+    for n in range(core_n + 1, nmax + 1):
+        scope("exhaustive-length-%d" % n, exhaustive_level(n, n <= nmax_map), reserve=6.0)
+        if n == core_n + 1:
+            scope("boundary-large", boundary_cases(large=True, small=False), reserve=8.0)
     ctx.exhaustive = False
-    ctx.note("exhaustive_scope", "all sequences of length 0..%d over each of %d three-symbol alphabets (ints, floats incl. NaN, text of widths 0..4, "
-             "booleans, nulls) through RLE, dictionary and sparse (every listed default) encodings, mapped variants to length %d, "
-             "constants/functions x lengths: %d cases; then random" % (nmax, len(ALPHABETS), nmax_map, total))
+    complete = [n for n in range(nmax + 1) if done_scopes.get("exhaustive-length-%d" % n, (0, False))[1]]
+    upto = -1
+    while upto + 1 in complete:
+        upto += 1
+    ctx.note("exhaustive_scope", "all sequences of length 0..%d over each of %d three-symbol alphabets (ints, floats incl. NaN, text of "
+             "widths 0..4, booleans, nulls) through RLE, dictionary and sparse (every listed default) encodings, mapped variants to "
+             "length %d, constants/functions x lengths; then random.  Cases per enumeration (complete?): %s"
+             % (upto, len(ALPHABETS), min(upto, nmax_map), {k: "%d%s" % (v[0], "" if v[1] else " (cut short)") for k, v in done_scopes.items()}))
+    ctx.note("boundary_scope", "inputs with %s and %s distinct values / run lengths / lengths / text widths (ints and text) and the ends of "
+             "int64 through dictionary, RLE, sparse, constant and function columns" % (list(SMALL_BOUNDS), list(LARGE_BOUNDS)))
+    ctx.note("sequence_scope", "every sequence of length 0..%d over each alphabet through RLE, dictionary and sparse columns (defaults: "
+             "null, the kind's zero, another kind) used more than once on one object -- expand twice; expand, map, expand; map, expand, "
+             "map, expand; in-place map; another column of the class built in between; to_flatcolumn in between; length reassigned "
+             "(constant / function) -- and handed over as tuple / numpy array, with a declared column type, with the default omitted; "
+             "every sequence of length 0..%d over value pools at the limits of int8..uint64 / float16 / float32 / object / wide-text "
+             "numpy arrays with defaults outside the dtype's range or precision and typed (numpy scalar) defaults" % (nseq, nnarrow))
     n_random = ctx.scale(4000, 60000)
     done = 0
-    while done < n_random and ctx.time_left() > 6:
-        k = min(2000, n_random - done)
+    while done < n_random and (ctx.time_left() > 4 or ctx.replaying):
+        k = min(500, n_random - done)
         evaluate(ctx, [random_case(ctx, big=(i % 97 == 0)) for i in range(k)])
         done += k
+    if done < n_random:
+        cut.append({"scope": "random", "cases_evaluated_before_the_cut": done, "planned": n_random})
     ctx.note("random_cases", done)
+    # (empty when every enumeration ran to its end)
+    ctx.note("exhaustive_cut_short", cut)
 
 
 def intensify(ctx):
@@ -854,4 +1479,17 @@ def replay(ctx, case):
     evaluate(ctx, [case])
 
 
-KNOWN_PREDICATES = {"sparse_big_int_float_default": is_big_int_float_default}
+def is_dict_object_array_nan(case, failure=None):
+    """C09-K02: a dictionary column over an *object* array of floats containing NaN: numpy.unique sorts
+    objects with `<`, a NaN leaves the array unsorted and equal values on both sides of it are not
+    merged.  Only the uniqueness clause is suppressed (the expansion must still be exact)."""
+    if case.get("enc") != "dict" or case.get("container") != "array:object":
+        return False
+    if not isinstance(case.get("values"), list) or not any(is_nan(v) for v in case["values"]):
+        return False
+    if failure is None:
+        return True
+    return (failure.get("clause") or "") == "stored form: dictionary entries are not unique"
+
+
+KNOWN_PREDICATES = {"sparse_big_int_float_default": is_big_int_float_default, "dict_object_array_nan": is_dict_object_array_nan}
